@@ -372,7 +372,24 @@ func c08Run(t *testing.T, sc Scenario, res *Result) {
 				if inv.phase() != "generate" {
 					continue // minimisation candidates select the first action over and over
 				}
-				for _, e := range inv.Trace {
+				// only the attempts of the Repeat call that was given ALL the actions count (the last one of the program)
+				markers, last := 0, -1
+				for j, e := range inv.Trace {
+					if e == "repeat>" {
+						markers++
+						last = j
+					}
+				}
+				nRepeat := 0
+				for _, st := range p.Steps {
+					if st.Op == "repeat" {
+						nRepeat++
+					}
+				}
+				if markers != nRepeat || last < 0 {
+					continue
+				}
+				for _, e := range inv.Trace[last:] {
 					if strings.HasPrefix(e, "act> ") {
 						seen[strings.TrimPrefix(e, "act> ")]++
 						total++
